@@ -1,11 +1,11 @@
 package main
 
 import (
-	"sort"
 	"fmt"
 	"go/ast"
 	"go/token"
 	"go/types"
+	"sort"
 	"strings"
 )
 
@@ -704,59 +704,80 @@ func c14R6(p *Prog, r *Report) {
 		}
 	}
 	nTraffic := 0
-	for _, v := range gu.G.V {
-		if v.Node == nil {
-			continue
-		}
-		inspectNoLit(v.Node, func(n ast.Node) bool {
-			sel, ok := n.(*ast.SelectorExpr)
-			if !ok || sel.Sel.Name != "Traffic" {
-				return true
+	var scanTraffic func(gu *FuncCtx, userObj types.Object)
+	scanTraffic = func(gu *FuncCtx, userObj types.Object) {
+		uinfo := gu.Info()
+		for _, v := range gu.G.V {
+			if v.Node == nil {
+				continue
 			}
-			tv, ok := uinfo.Types[sel.X]
-			if !ok {
-				return true
-			}
-			if _, isType := uinfo.Uses[sel.Sel].(*types.TypeName); isType {
-				return true
-			}
-			base := namedTypeName(tv.Type)
-			nTraffic++
-			construct := fmt.Sprintf("api/ssm.handleGetUser:Traffic-of-%s#%d", base, nTraffic-1)
-			switch base {
-			case "Server":
-				r.Fail(rule, construct, p.posStr(sel.Pos()), "the per-user answer embeds the server aggregate ("+exprStr(sel)+"): every user is shown the whole server's traffic")
-			case "User":
-				// must be under a Name == username condition
-				uo := objOf(uinfo, sel.X)
-				guarded := false
-				if ix, isIx := ast.Unparen(sel.X).(*ast.IndexExpr); isIx {
-					_ = ix
+			inspectNoLit(v.Node, func(n ast.Node) bool {
+				sel, ok := n.(*ast.SelectorExpr)
+				if !ok || sel.Sel.Name != "Traffic" {
+					return true
 				}
-				for _, cv := range gu.G.V {
-					x, y, op, ok := condParts(cv)
-					if !ok || op != token.EQL {
-						continue
+				tv, ok := uinfo.Types[sel.X]
+				if !ok {
+					return true
+				}
+				if _, isType := uinfo.Uses[sel.Sel].(*types.TypeName); isType {
+					return true
+				}
+				base := namedTypeName(tv.Type)
+				nTraffic++
+				construct := fmt.Sprintf("api/ssm.handleGetUser:Traffic-of-%s#%d", base, nTraffic-1)
+				switch base {
+				case "Server":
+					r.Fail(rule, construct, p.posStr(sel.Pos()), "the per-user answer embeds the server aggregate ("+exprStr(sel)+"): every user is shown the whole server's traffic")
+				case "User":
+					// must be under a Name == username condition
+					uo := objOf(uinfo, sel.X)
+					guarded := false
+					if ix, isIx := ast.Unparen(sel.X).(*ast.IndexExpr); isIx {
+						_ = ix
 					}
-					isName := func(e ast.Expr) bool {
-						s, ok := ast.Unparen(e).(*ast.SelectorExpr)
-						return ok && s.Sel.Name == "Name" && (uo == nil || objOf(uinfo, s.X) == uo)
-					}
-					isUser := func(e ast.Expr) bool { return userObj != nil && objOf(uinfo, e) == userObj }
-					if (isName(x) && isUser(y)) || (isName(y) && isUser(x)) {
-						for _, e := range cv.Succs {
-							if e.Label == LTrue && gu.G.EdgeDominates([]Edge{e}, v.ID) {
-								guarded = true
+					for _, cv := range gu.G.V {
+						x, y, op, ok := condParts(cv)
+						if !ok || op != token.EQL {
+							continue
+						}
+						isName := func(e ast.Expr) bool {
+							s, ok := ast.Unparen(e).(*ast.SelectorExpr)
+							return ok && s.Sel.Name == "Name" && (uo == nil || objOf(uinfo, s.X) == uo)
+						}
+						isUser := func(e ast.Expr) bool { return userObj != nil && objOf(uinfo, e) == userObj }
+						if (isName(x) && isUser(y)) || (isName(y) && isUser(x)) {
+							for _, e := range cv.Succs {
+								if e.Label == LTrue && gu.G.EdgeDominates([]Edge{e}, v.ID) {
+									guarded = true
+								}
 							}
 						}
 					}
+					r.Check(guarded, rule, construct, p.posStr(sel.Pos()), "taken from a Users entry whose Name equals the path's user name", "a Users entry's Traffic is used without checking that its Name is the requested user")
+				default:
+					r.Fail(rule, construct, p.posStr(sel.Pos()), "undecided: Traffic selected from "+base)
 				}
-				r.Check(guarded, rule, construct, p.posStr(sel.Pos()), "taken from a Users entry whose Name equals the path's user name", "a Users entry's Traffic is used without checking that its Name is the requested user")
-			default:
-				r.Fail(rule, construct, p.posStr(sel.Pos()), "undecided: Traffic selected from "+base)
+				return true
+			})
+		}
+	}
+	scanTraffic(gu, userObj)
+	// a helper of the package that is handed the requested user name looks the figures up on the
+	// handler's behalf: the same rule applies inside it, with its parameter as the user name
+	for _, cs := range gu.AllCalls() {
+		if cs.Fn == nil || cs.Fn.Pkg() == nil || cs.Fn.Pkg() != gu.Pkg.Types || cs.Fn.Exported() {
+			continue
+		}
+		callee := p.CtxOfObj(cs.Fn)
+		if callee == nil || callee.Body == nil {
+			continue
+		}
+		for i, a := range cs.Call.Args {
+			if userObj != nil && objOf(uinfo, a) == userObj && callee.ParamObj(i) != nil && len(callee.Defs(callee.ParamObj(i))) == 0 {
+				scanTraffic(callee, callee.ParamObj(i))
 			}
-			return true
-		})
+		}
 	}
 	r.Check(nTraffic > 0, rule, "api/ssm.handleGetUser:has-traffic", p.posStr(gu.Body.Pos()), "the answer carries traffic figures", "the per-user answer carries no traffic figures")
 	r.Floor(rule, 6)
